@@ -165,7 +165,9 @@ CHECK_DEADLOCK FALSE
 		return strings.ToLower(strings.TrimSuffix(strings.TrimPrefix(hrp, "AGE-PLUGIN-"), "-"))
 	}
 	// path-like values whose last element (with or without the age-plugin- prefix) is a valid name that IS on PATH
-	extra := []string{"besidepath", "pwn/besidepath", "./age-plugin-besidepath", "../age-plugin-besidepath", "/usr/local/bin/age-plugin-besidepath", "age-plugin-besidepath/", "a,b", "a:b", "a;b", "a=b", "a@b", "a*", "a&b", "a|b", "a'b", "a\"b", "a(b", "a)b", "a<b", "a>b", "a?b", "a[b", "a]b", "a^b", "a`b", "a{b", "a}b", "a$b", "a#b", "foo", "Foo", "FOO", "x.y", "X.Y", "../x", "x/../y", ".x", "..", "/pwn", "/../../tmp/pwn", "a/b", "\\pwn", "~/bin/x", "*a", "a b", "a\tb", "é", ""}
+	extra := []string{"besidepath", "pwn/besidepath", "./age-plugin-besidepath", "../age-plugin-besidepath", "/usr/local/bin/age-plugin-besidepath", "age-plugin-besidepath/", "a,b", "a:b", "a;b", "a=b", "a@b", "a*", "a&b", "a|b", "a'b", "a\"b", "a(b", "a)b", "a<b", "a>b", "a?b", "a[b", "a]b", "a^b", "a`b", "a{b", "a}b", "a$b", "a#b", "foo", "Foo", "FOO", "x.y", "X.Y", "../x", "x/../y", ".x", "..", "/pwn", "/../../tmp/pwn", "a/b", "\\pwn", "~/bin/x", "*a", "a b", "a\tb", "é", "",
+		// characters outside ASCII whose case mapping is an ASCII letter (a check on a case-normalised copy lets them in)
+		"te\u017ft", "yub\u0131key", "\u212aey", "\u017f", "TE\u017fT"}
 	for i := range cases {
 		if cases[i].Class == "plugin_canon" { // (the junk-in-front strings have no name of their own)
 			names[nameOf(&cases[i])] = true
